@@ -17,6 +17,13 @@ package main
 //   dval  : s:<hstr> | d:<bits64> | b:<0|1> | nil
 //
 //   C03 hostile <hex|empty> => U <class> <alloc> ; G <class> <alloc> <declen> [; VT <tile>]
+//
+//   C03 wire  <layers as in rt> => M <class> ; D <0|1> [; B <hex|empty> ; VT <tile> ; U <outcome>]
+//       the BYTES mvt.Marshal wrote (compared byte for byte with the model's encodeTile, and
+//       decoded by the model's decodeTile), the structure the generated package reads from
+//       them, and what mvt.Unmarshal makes of them
+//   C03 wireh <hex|empty> => U <outcome>
+//       hostile / truncated / hand-built wire strings through mvt.Unmarshal (full outcome)
 
 import (
 	"bytes"
@@ -469,6 +476,10 @@ func runC03(op string, in []string) string {
 		return c03RunRT(in)
 	case "hostile":
 		return runMVTHostile(in)
+	case "wire":
+		return c03RunWire(in)
+	case "wireh":
+		return c03RunWireH(in)
 	}
 	return "badop"
 }
@@ -1059,6 +1070,7 @@ func genC03(c *Ctx) {
 	for i := 0; i < c.Budget && !c.Exhausted(); i++ {
 		c.Case("rt", c03ShowLayers(c03GenLayers(rng, i%3 != 2)))
 	}
+	genC03Wire(c)
 }
 
 // ---------------------------------------------------------------- hostile tiles (C05)
@@ -1095,7 +1107,7 @@ func mvtWalk(ls mvt.Layers) {
 func mvtMeasure(n int, f func() string) (string, uint64) {
 	var class string
 	alloc := mvtAllocOf(func() { class = guard(f) })
-	for try := 0; try < 3 && alloc > uint64(8*n+2048); try++ {
+	for try := 0; try < 3 && alloc > uint64(8*n+2048) && alloc < 4<<20; try++ {
 		a2 := mvtAllocOf(func() { class = guard(f) })
 		if a2 < alloc {
 			alloc = a2
@@ -1510,4 +1522,368 @@ func hexOrEmptyMVT(b []byte) string {
 		return "empty"
 	}
 	return hex.EncodeToString(b)
+}
+
+// ---------------------------------------------------------------- the wire encoding (ops wire / wireh)
+
+func c03RunWire(in []string) string {
+	var ls []c03Layer
+	if bad := guard(func() string { ls = c03ParseLayers(&tokReader{t: in}); return "" }); bad != "" {
+		return "badinput"
+	}
+	data, class := c03Marshal(ls, 0, false)
+	det := true
+	for v := 1; v <= 3; v++ {
+		d2, c2 := c03Marshal(ls, v%3, false)
+		if c2 != class || !bytes.Equal(d2, data) {
+			det = false
+		}
+	}
+	out := "M " + class + " ; D " + b2s(det)
+	if class != "ok" {
+		return out
+	}
+	out += " ; B " + hexOrEmptyMVT(data)
+	var vt vectortile.Tile
+	if err := vt.Unmarshal(data); err != nil {
+		return out + " ; VT undecodable"
+	}
+	out += " ; VT " + c03ShowVT(&vt)
+	u := guard(func() string { l, err := mvt.Unmarshal(data); return c03Outcome(l, err) })
+	return out + " ; U " + u
+}
+
+func c03RunWireH(in []string) string {
+	if len(in) != 1 {
+		return "badinput"
+	}
+	var data []byte
+	if in[0] != "empty" {
+		var err error
+		data, err = hex.DecodeString(in[0])
+		if err != nil {
+			return "badinput"
+		}
+	}
+	return "U " + guard(func() string { l, err := mvt.Unmarshal(data); return c03Outcome(l, err) })
+}
+
+// c03WireCrafted builds wire strings by hand around a valid tile: every scanner path that the
+// canonical encoder never takes (over-long and non-minimal varints, unknown fields of every wire
+// type incl. the ones Skip ignores, a fixed-width unknown field at the very end of a message,
+// known fields with the wrong wire type, repeated scalar fields, two tags / geometry fields,
+// value messages with several fields or trailing bytes, absent required fields).
+func c03WireCrafted(r *rand.Rand) [][]byte {
+	var out [][]byte
+	pt := []uint32{9, 4, 6} // MoveTo(2,3)
+	feat := func(mod func(w *mvtW)) []byte {
+		var w mvtW
+		w.vfield(1, 5)
+		w.packed(2, []uint32{0, 0})
+		w.vfield(3, 1)
+		w.packed(4, pt)
+		if mod != nil {
+			mod(&w)
+		}
+		return w.b
+	}
+	val := func() []byte { var w mvtW; w.vfield(6, 5); return w.b }
+	layer := func(featB []byte, valB []byte, mod func(w *mvtW)) []byte {
+		var w mvtW
+		w.bytes(1, []byte("l"))
+		w.bytes(2, featB)
+		w.bytes(3, []byte("k"))
+		w.bytes(4, valB)
+		w.vfield(5, 4096)
+		w.vfield(15, 2)
+		if mod != nil {
+			mod(&w)
+		}
+		return w.b
+	}
+	tile := func(layerB []byte, mod func(w *mvtW)) []byte {
+		var w mvtW
+		w.bytes(3, layerB)
+		if mod != nil {
+			mod(&w)
+		}
+		return w.b
+	}
+	base := func() []byte { return tile(layer(feat(nil), val(), nil), nil) }
+	out = append(out, base())
+	// unknown fields of every wire type, at each level, in the middle and at the very end
+	for wt := 0; wt < 8; wt++ {
+		for _, fld := range []int{9, 16, 100, 1 << 20} {
+			for _, n := range []int{0, 1, 3, 4, 5, 7, 8, 9, 12} {
+				pay := make([]byte, n)
+				for i := range pay {
+					pay[i] = byte(r.Intn(128))
+				}
+				unk := func(w *mvtW) { w.key(fld, wt); w.b = append(w.b, pay...) }
+				out = append(out, tile(layer(feat(nil), val(), nil), unk))
+				out = append(out, tile(layer(feat(nil), val(), unk), nil))
+				out = append(out, tile(layer(feat(unk), val(), nil), nil))
+				var vw mvtW
+				unk(&vw)
+				vw.vfield(6, 5)
+				out = append(out, tile(layer(feat(nil), vw.b, nil), nil))
+				// followed by a known field
+				out = append(out, tile(layer(feat(func(w *mvtW) { unk(w); w.vfield(1, 9) }), val(), nil), nil))
+			}
+		}
+	}
+	// varints: non-minimal, 10 bytes with a fat last byte, 11 bytes; for uint32 readers 5 / 6 bytes
+	long := func(v uint64, n int, last byte) []byte {
+		b := make([]byte, n)
+		for i := 0; i < n; i++ {
+			b[i] = byte(v&0x7f) | 0x80
+			v >>= 7
+		}
+		b[n-1] = last
+		return b
+	}
+	for _, n := range []int{1, 2, 3, 5, 6, 9, 10, 11, 12} {
+		for _, last := range []byte{0x00, 0x01, 0x02, 0x0f, 0x10, 0x7f} {
+			vb := long(uint64(r.Int63()), n, last)
+			small := long(1, n, 0)
+			if n == 1 {
+				small = []byte{1}
+			}
+			// id (uint64), type (int32 of a varint64), version / extent (uint32), a tag word, a geometry word
+			out = append(out, tile(layer(feat(func(w *mvtW) { w.key(1, 0); w.b = append(w.b, vb...) }), val(), nil), nil))
+			out = append(out, tile(layer(feat(func(w *mvtW) { w.key(3, 0); w.b = append(w.b, vb...) }), val(), nil), nil))
+			out = append(out, tile(layer(feat(func(w *mvtW) { w.key(3, 0); w.b = append(w.b, small...) }), val(), nil), nil))
+			out = append(out, tile(layer(feat(nil), val(), func(w *mvtW) { w.key(15, 0); w.b = append(w.b, vb...) }), nil))
+			out = append(out, tile(layer(feat(nil), val(), func(w *mvtW) { w.key(5, 0); w.b = append(w.b, vb...) }), nil))
+			out = append(out, tile(layer(feat(func(w *mvtW) { w.bytes(2, append(append([]byte{}, vb...), 0)) }), val(), nil), nil))
+			out = append(out, tile(layer(feat(func(w *mvtW) { w.bytes(4, append([]byte{9, 4, 6}, vb...)) }), val(), nil), nil))
+			out = append(out, tile(layer(feat(func(w *mvtW) { w.bytes(4, append(append([]byte{}, small...), 4, 6)) }), val(), nil), nil))
+			// the key itself, and a length
+			var kw mvtW
+			kw.b = append(kw.b, long(uint64(3<<3|2), n, 0)...)
+			if n == 1 {
+				kw.b = []byte{3<<3 | 2}
+			}
+			lb := layer(feat(nil), val(), nil)
+			kw.varint(uint64(len(lb)))
+			kw.b = append(kw.b, lb...)
+			out = append(out, kw.b)
+			var lw mvtW
+			lw.key(3, 2)
+			lw.b = append(lw.b, vb...)
+			lw.b = append(lw.b, lb...)
+			out = append(out, lw.b)
+			// value fields
+			for _, f := range []int{4, 5, 6, 7} {
+				var vw mvtW
+				vw.key(f, 0)
+				vw.b = append(vw.b, vb...)
+				out = append(out, tile(layer(feat(nil), vw.b, nil), nil))
+			}
+		}
+	}
+	// values: every kind, several fields, trailing bytes, short fixed fields, bool bytes
+	for _, vb := range [][]byte{
+		{}, {0x0a, 0x01, 'x'}, {0x0a, 0x00}, {0x0a, 0x02, 'x'}, {0x15, 0, 0, 0x80, 0x3f}, {0x15, 0, 0, 0x80}, {0x15, 0, 0, 0x80, 0x3f, 0xff},
+		{0x19, 0, 0, 0, 0, 0, 0, 0xf0, 0x3f}, {0x19, 0, 0, 0, 0, 0, 0, 0xf0}, {0x20, 0x01}, {0x20, 0xff, 0xff, 0xff, 0xff, 0xff, 0xff, 0xff, 0xff, 0xff, 0x01},
+		{0x28, 0xff, 0xff, 0xff, 0xff, 0xff, 0xff, 0xff, 0xff, 0xff, 0x01}, {0x30, 0x01}, {0x30, 0x02}, {0x30, 0xff, 0xff, 0xff, 0xff, 0xff, 0xff, 0xff, 0xff, 0xff, 0x01},
+		{0x30, 0xfe, 0xff, 0xff, 0xff, 0xff, 0xff, 0xff, 0xff, 0xff, 0x01}, {0x38, 0x00}, {0x38, 0x01}, {0x38, 0x02}, {0x38, 0x81, 0x00}, {0x38, 0x80, 0x01}, {0x38, 0x80}, {0x38},
+		{0x38, 0x01, 0x0a, 0x01, 'x'}, {0x0a, 0x01, 'x', 0x38, 0x01}, {0x30, 0x01, 0xff}, {0x40, 0x01, 0x30, 0x03}, {0x45, 1, 2, 3, 4, 0x30, 0x03}, {0x45, 1, 2, 3, 4}, {0x41, 1, 2, 3, 4, 5, 6, 7, 8},
+		{0x41, 1, 2, 3, 4, 5, 6, 7, 8, 0x30, 0x03}, {0x43, 0x30, 0x03}, {0x44, 0x30, 0x03}, {0x46, 0x30, 0x03}, {0x47, 0x30, 0x03}, {0x12, 0x01, 0x00}, {0x0d, 0x01, 'x'}, {0x08, 0x01},
+	} {
+		out = append(out, tile(layer(feat(nil), vb, nil), nil))
+	}
+	// features: wrong wire types for known fields, repeated fields, several tags / geometry fields
+	for _, mod := range []func(w *mvtW){
+		func(w *mvtW) { w.vfield(1, 77) },                               // id twice
+		func(w *mvtW) { w.vfield(3, 2) },                                // type twice
+		func(w *mvtW) { w.vfield(3, 0xffffffffffffffff) },               // type -1 as ten bytes
+		func(w *mvtW) { w.vfield(3, 1<<32|1) },                          // int32 truncation
+		func(w *mvtW) { w.packed(2, []uint32{0}) },                      // second tags field, odd
+		func(w *mvtW) { w.packed(2, []uint32{0, 0, 0, 0}) },             // second tags field
+		func(w *mvtW) { w.packed(2, []uint32{0}); w.packed(2, nil) },    // odd one replaced
+		func(w *mvtW) { w.bytes(2, nil) },                               // empty tags field
+		func(w *mvtW) { w.packed(4, []uint32{9, 8, 8, 9, 2, 2}) },       // second geometry
+		func(w *mvtW) { w.bytes(4, []byte{0x80}); w.packed(4, pt) },     // malformed, then replaced
+		func(w *mvtW) { w.bytes(4, []byte{9, 4, 6, 0x80}) },             // point with a malformed tail
+		func(w *mvtW) { w.bytes(4, []byte{9, 4, 6, 0xff, 0xff, 0xff, 0xff, 0xff, 0x01}) },
+		func(w *mvtW) { w.bytes(4, []byte{9, 4, 0x80}) },                // malformed where it is read
+		func(w *mvtW) { w.bytes(4, nil) },                               // present but empty
+		func(w *mvtW) { w.key(1, 2); w.varint(3) },                      // id as length-delimited key
+		func(w *mvtW) { w.key(2, 0); w.varint(2); w.b = append(w.b, 0, 0) }, // tags key with varint type
+		func(w *mvtW) { w.key(4, 5); w.b = append(w.b, 3, 9, 2, 2) },    // geometry key with fixed32 type
+		func(w *mvtW) { w.key(3, 2); w.varint(2) },                      // type key with length type
+		func(w *mvtW) { w.bytes(2, []byte{0xff, 0xff, 0xff, 0xff, 0x7f, 0x00}) }, // tag word with excess bits
+		func(w *mvtW) { w.bytes(2, []byte{0xff, 0xff, 0xff, 0xff, 0xff, 0x00}) }, // six-byte tag word
+	} {
+		out = append(out, tile(layer(feat(mod), val(), nil), nil))
+	}
+	// layers: repeated / absent fields, wrong wire types
+	for _, mod := range []func(w *mvtW){
+		func(w *mvtW) { w.vfield(15, 1) },
+		func(w *mvtW) { w.vfield(5, 512) },
+		func(w *mvtW) { w.bytes(1, []byte("second")) },
+		func(w *mvtW) { w.vfield(15, 1<<32|7) },
+		func(w *mvtW) { w.vfield(5, 1<<35) },
+		func(w *mvtW) { w.key(15, 2); w.varint(1) },
+		func(w *mvtW) { w.key(1, 0); w.varint(1); w.b = append(w.b, 'z') },
+		func(w *mvtW) { w.key(2, 0); w.varint(0) },
+		func(w *mvtW) { w.bytes(2, nil) },
+		func(w *mvtW) { w.bytes(4, nil); w.bytes(3, []byte("k2")) },
+		func(w *mvtW) { w.bytes(3, []byte{0xff, 0xfe}) }, // a key that is not UTF-8
+	} {
+		out = append(out, tile(layer(feat(nil), val(), mod), nil))
+	}
+	// no fields at all, empty layer, absent name / version / extent
+	out = append(out, tile(nil, nil), tile([]byte{}, func(w *mvtW) { w.bytes(3, nil) }))
+	{
+		var w mvtW
+		w.bytes(2, feat(nil))
+		out = append(out, tile(w.b, nil))
+	}
+	// lengths: past the end, negative as int, enormous
+	for _, l := range []uint64{1 << 63, 1<<63 - 1, 1<<64 - 1, 1 << 32, 200} {
+		var w mvtW
+		w.key(3, 2)
+		w.varint(l)
+		w.b = append(w.b, layer(feat(nil), val(), nil)...)
+		out = append(out, w.b)
+	}
+	// gzip magic in front of a failing / a succeeding scan
+	out = append(out, []byte{0x1f, 0x8b, 0x08}, []byte{0x1f, 0x8b}, append([]byte{0x1f, 0x8b, 0x01}, base()...))
+	return out
+}
+
+func genC03Wire(c *Ctx) {
+	r := c.Rng
+	n := 0
+	for _, ls := range c03Fixed() {
+		n++
+		if c.Mine(n) {
+			c.Case("wire", c03ShowLayers(ls))
+		}
+	}
+	// value / id / size boundaries of the wire format: varint lengths 1..10, strings of 127 / 128 /
+	// 16383 / 16384 bytes (length prefixes of 1, 2, 3 bytes), features whose message crosses them
+	var bound []c03Prop
+	for k := uint(0); k < 64; k += 7 {
+		for _, e := range []int64{-1, 0, 1} {
+			v := uint64(1)<<k + uint64(e)
+			bound = append(bound, c03Prop{key: fmt.Sprintf("u%d_%d", k, e), tok: fmt.Sprintf("u:uint64:%d", v)})
+			if k < 63 {
+				bound = append(bound, c03Prop{key: fmt.Sprintf("i%d_%d", k, e), tok: fmt.Sprintf("i:int64:%d", int64(v))},
+					c03Prop{key: fmt.Sprintf("n%d_%d", k, e), tok: fmt.Sprintf("i:int64:%d", -int64(v))})
+			}
+		}
+	}
+	bound = append(bound, c03Prop{key: "min", tok: "i:int64:-9223372036854775808"}, c03Prop{key: "max", tok: "u:uint64:18446744073709551615"})
+	n++
+	if c.Mine(n) {
+		c.Case("wire", c03ShowLayers(c03One("bounds", orb.Point{1, 2}, bound...)))
+	}
+	for _, sl := range []int{0, 1, 126, 127, 128, 129, 16383, 16384, 16385} {
+		n++
+		if !c.Mine(n) {
+			continue
+		}
+		s := strings.Repeat("x", sl)
+		ls := c03One(s, orb.Point{1, 2}, c03Prop{key: s, tok: "s:" + c03H(s)})
+		c.Case("wire", c03ShowLayers(ls))
+	}
+	for _, np := range []int{30, 31, 32, 33, 62, 63, 64, 65, 8190, 8191, 8192} { // geometry payload lengths around 127 / 16383
+		n++
+		if !c.Mine(n) {
+			continue
+		}
+		ln := make(orb.LineString, np)
+		for i := range ln {
+			ln[i] = orb.Point{float64(i % 50), float64((i * 7) % 60)}
+		}
+		c.Case("wire", c03ShowLayers(c03One("len", ln)))
+	}
+	for _, id := range []string{"u:uint64:0", "u:uint64:127", "u:uint64:128", "u:uint64:18446744073709551615", "i:int64:9223372036854775807", "u:uint64:9007199254740993"} {
+		n++
+		if c.Mine(n) {
+			ls := c03One("id", orb.Point{1, 2})
+			ls[0].feats[0].id = id
+			c.Case("wire", c03ShowLayers(ls))
+		}
+	}
+	for _, ve := range [][2]uint32{{0, 0}, {127, 128}, {16383, 16384}, {1<<32 - 1, 1<<32 - 1}, {1 << 28, 1<<28 - 1}} {
+		n++
+		if c.Mine(n) {
+			ls := c03One("ve", orb.Point{1, 2})
+			ls[0].version, ls[0].extent = ve[0], ve[1]
+			c.Case("wire", c03ShowLayers(ls))
+		}
+	}
+	if c.Mine(0) {
+		for _, b := range c03WireCrafted(r) {
+			c.Case("wireh", hexOrEmptyMVT(b))
+		}
+	}
+	for i := 0; i < c.Budget/2 && !c.Exhausted(); i++ {
+		ls := c03GenLayers(r, i%3 != 2)
+		c.Case("wire", c03ShowLayers(ls))
+		// the same bytes, damaged
+		data, class := c03Marshal(ls, 0, false)
+		if class != "ok" || len(data) == 0 {
+			continue
+		}
+		var out []byte
+		switch r.Intn(8) {
+		case 0, 1: // truncate
+			out = data[:r.Intn(len(data))]
+		case 2: // bit flips
+			out = append([]byte{}, data...)
+			for k := 1 + r.Intn(3); k > 0; k-- {
+				out[r.Intn(len(out))] ^= 1 << uint(r.Intn(8))
+			}
+		case 3: // byte replace / insert / delete
+			out = append([]byte{}, data...)
+			p := r.Intn(len(out))
+			switch r.Intn(3) {
+			case 0:
+				out[p] = byte(r.Intn(256))
+			case 1:
+				out = append(out[:p], append([]byte{byte(r.Intn(256))}, out[p:]...)...)
+			default:
+				out = append(out[:p], out[p+1:]...)
+			}
+		case 4: // splice with another tile
+			o := mvtBaseTile(r)
+			out = append(append([]byte{}, data[:r.Intn(len(data)+1)]...), o[r.Intn(len(o)):]...)
+		case 5, 6: // structure level, then wire level (dropped / doubled / empty / unpacked fields)
+			var vt vectortile.Tile
+			if vt.Unmarshal(data) != nil {
+				continue
+			}
+			mvtMutateStruct(r, &vt)
+			out = mvtRawTile(r, &vt, func(li, fi int, f *mvtRawFeature) {
+				switch r.Intn(10) {
+				case 0:
+					f.noGeom = true
+				case 1:
+					f.emptyGeom = true
+				case 2:
+					f.dupGeom = true
+				case 3:
+					f.unpackedGeom = true
+				case 4:
+					f.noTags = true
+				case 5:
+					f.typ = nil
+				case 6:
+					f.typLast = true
+				}
+			})
+		default: // gzip magic, or gzipped
+			if r.Intn(2) == 0 {
+				out = mvtGzip(data)
+			} else {
+				out = append([]byte{0x1f, 0x8b}, data...)
+			}
+		}
+		c.Case("wireh", hexOrEmptyMVT(out))
+	}
 }
